@@ -28,5 +28,15 @@ func editCorpus() []string {
 		"a = <<EOT\n%{ if t ~}\ny\n%{ endif ~}\nEOT\n",
 		"a = [<<A\n${v}\nA\n, <<-B\n  b\n  B\n]\n",
 		"b \"x\" \"" + e + "\" { c { d = {} } }\n",
+		// closing heredoc marker followed by blanks other than ASCII space/tab
+		"a = <<EOT\nx\nEOT\u00a0\nb = 1\n",
+		"a = <<EOT\nx\nEOT \t\nb = 1\n",
+		"a = <<EOT\nx\nEOT\f\nb = 1\n",
+		"a = <<-EOT\n  x\n  EOT\u3000 \nb = 1\n",
+		// flush heredocs indented with multi-byte white space, tabs, and mixed
+		"a = <<-EOT\n\u00a0\u00a0x\n\u00a0\u00a0\u00a0y ${v}\n\u00a0\u00a0EOT\nz = 2\n",
+		"a = <<-EOT\n\u3000x ${v}\n\u3000\u3000y\n\u3000EOT\n",
+		"a = <<-EOT\n\t\tx\n\t\t\ty\n\t\tEOT\n",
+		"a = <<-EOT\n  ${v} x\n    y\n  EOT\n",
 	}
 }
